@@ -145,15 +145,34 @@ Proof. apply history_fixed, install_idem. Qed.
 
 (* ---------------------------------------------------------------- reader / constructor files *)
 
-Lemma inv_built secs : inv (built secs) = true.
-Proof. unfold built, inv. induction secs as [|s t IH]; [reflexivity|]. cbn. exact IH. Qed.
+Lemma inv_built secs : no_adv secs = true -> inv (built secs) = true.
+Proof.
+  unfold built, inv, no_adv. induction secs as [|s t IH]; intros H; [reflexivity|].
+  cbn [forallb map] in *. apply andb_prop in H as [Hs Ht].
+  rewrite (IH Ht), andb_true_r. unfold new_batch, inv_bat. cbn. exact Hs.
+Qed.
 
 Lemma inv_app f g : inv (f ++ g) = inv f && inv g.
 Proof. unfold inv. apply forallb_app. Qed.
 
-(* File.AddBatch(NewBatch(bh)) keeps the invariant *)
-Lemma inv_add_batch f sec : inv f = true -> inv (f ++ [new_batch sec]) = true.
-Proof. intros H. rewrite inv_app, H. reflexivity. Qed.
+(* File.AddBatch(NewBatch(bh)) keeps the invariant for every SEC code but ADV *)
+Lemma inv_add_batch f sec : bytes_eqb sec adv = false -> inv f = true -> inv (f ++ [new_batch sec]) = true.
+Proof. intros E H. rewrite inv_app, H. unfold new_batch. cbn. now rewrite E. Qed.
+
+(* what Reader.Read and File.Create return satisfies the exact condition, ADV or not *)
+Lemma prefix_inv_created secs : prefix_inv (created secs) = true.
+Proof. apply prefix_inv_install. Qed.
+
+Lemma prefix_inv_reader secs : prefix_inv (reader_file secs) = true.
+Proof. apply prefix_inv_install. Qed.
+
+Lemma history_prefix ops f : prefix_inv f = true -> observe (fold_left step ops f) = observe f.
+Proof. intros H. rewrite history_fixed; [reflexivity|]. now apply install_fix_iff. Qed.
+
+Lemma prefix_inv_step f o : prefix_inv f = true -> prefix_inv (step f o) = true.
+Proof.
+  intros H. destruct (step_cases f o) as [-> | ->]; [exact H|apply prefix_inv_install].
+Qed.
 
 (* ---------------------------------------------------------------- effect instances *)
 
